@@ -463,7 +463,7 @@ class UniformPrior(BasePrior):
         :returns: \
             The gradient of the prior log-probability with respect to the model parameters.
         """
-        return self.grad
+        return self.grad.copy()
 
     def sample(self) -> ndarray:
         """
